@@ -141,6 +141,18 @@ structure LogoutConfig where
 def LogoutConfig.GetPath (t : LogoutConfig) : Str := if t.isNil then [] else t.Path
 def LogoutConfig.GetRedirectUri (t : LogoutConfig) : Str := if t.isNil then [] else t.RedirectUri
 
+structure JwksFetcherConfig where
+  isNil : Bool := false
+  JwksUri : Str := []
+  deriving Repr, BEq, DecidableEq
+def JwksFetcherConfig.GetJwksUri (t : JwksFetcherConfig) : Str := if t.isNil then [] else t.JwksUri
+
+structure RedisConfig where
+  isNil : Bool := false
+  ServerUri : Str := []
+  deriving Repr, BEq, DecidableEq
+def RedisConfig.GetServerUri (t : RedisConfig) : Str := if t.isNil then [] else t.ServerUri
+
 structure OIDCConfig where
   isNil : Bool := false
   CallbackUri : Str := []
@@ -148,7 +160,20 @@ structure OIDCConfig where
   IdToken : TokenConfig := { isNil := true }
   AccessToken : TokenConfig := { isNil := true }
   Logout : LogoutConfig := { isNil := true }
+  ProxyUri : Str := []
+  TokenUri : Str := []
+  ConfigurationUri : Str := []
+  AuthorizationUri : Str := []
+  /-- the arm `jwks_fetcher` of the oneof `jwks_config` (nil when another arm or none is set) -/
+  JwksFetcher : JwksFetcherConfig := { isNil := true }
+  RedisSessionStoreConfig : RedisConfig := { isNil := true }
   deriving Repr, BEq, DecidableEq
+def OIDCConfig.GetProxyUri (c : OIDCConfig) : Str := if c.isNil then [] else c.ProxyUri
+def OIDCConfig.GetTokenUri (c : OIDCConfig) : Str := if c.isNil then [] else c.TokenUri
+def OIDCConfig.GetConfigurationUri (c : OIDCConfig) : Str := if c.isNil then [] else c.ConfigurationUri
+def OIDCConfig.GetAuthorizationUri (c : OIDCConfig) : Str := if c.isNil then [] else c.AuthorizationUri
+def OIDCConfig.GetJwksFetcher (c : OIDCConfig) : JwksFetcherConfig := if c.isNil then { isNil := true } else c.JwksFetcher
+def OIDCConfig.GetRedisSessionStoreConfig (c : OIDCConfig) : RedisConfig := if c.isNil then { isNil := true } else c.RedisSessionStoreConfig
 def OIDCConfig.GetCallbackUri (c : OIDCConfig) : Str := if c.isNil then [] else c.CallbackUri
 def OIDCConfig.GetCookieNamePrefix (c : OIDCConfig) : Str := if c.isNil then [] else c.CookieNamePrefix
 def OIDCConfig.GetIdToken (c : OIDCConfig) : TokenConfig := if c.isNil then { isNil := true } else c.IdToken
